@@ -8,11 +8,21 @@ pub struct Cfg {
     pub tab: usize,
     #[serde(default)]
     pub reorder: bool,
+    /// `Config::blank_lines_upper_bound` (default 2; not reachable from the CLI)
+    #[serde(default = "default_blank", skip_serializing_if = "is_default_blank")]
+    pub blank: usize,
+}
+
+fn default_blank() -> usize {
+    2
+}
+fn is_default_blank(b: &usize) -> bool {
+    *b == 2
 }
 
 impl Cfg {
     pub fn new(width: usize, tab: usize) -> Self {
-        Cfg { width, tab, reorder: false }
+        Cfg { width, tab, reorder: false, blank: 2 }
     }
     pub fn with_reorder(mut self, r: bool) -> Self {
         self.reorder = r;
@@ -22,7 +32,7 @@ impl Cfg {
 
 impl Default for Cfg {
     fn default() -> Self {
-        Cfg { width: 80, tab: 2, reorder: false }
+        Cfg { width: 80, tab: 2, reorder: false, blank: 2 }
     }
 }
 
